@@ -118,8 +118,8 @@ with_relatives, render_raw, strip_raw = V.with_relatives, V.render_raw, V.strip_
 
 class C03:
     prop = "C03"
-    lean_module = "Ogorek.Props.C03"
-    theorems = ["Ogorek.C03_roundtrip", "Ogorek.C03_roundtrip_bin", "Ogorek.rt_val", "Ogorek.C03_int", "Ogorek.parseDecimal_fmtInt",
+    lean_module = "Ogorek.Props.C03N"
+    theorems = ["Ogorek.C03_roundtrip", "Ogorek.C03_roundtrip_bin", "Ogorek.C03_normal_form", "Ogorek.rt_val", "Ogorek.rtn_val", "Ogorek.C03_int", "Ogorek.parseDecimal_fmtInt",
                 "Ogorek.toSigned_ofSigned_32", "Ogorek.goEqual_strip", "Ogorek.assignAll_of_keysOK", "Ogorek.C03_string_p0",
                 "Ogorek.C03_unicode_p0", "Ogorek.pyquote_inv", "Ogorek.pyquote_no_lf", "Ogorek.rue_inv", "Ogorek.rue_no_lf",
                 "Ogorek.encodeRune_of_exact", "Ogorek.decodeRune_exact", "Ogorek.C03_isprint_lf"]
@@ -138,8 +138,12 @@ class C03:
                   "payloads < 2^32 bytes; keys of one literal pairwise different for the decoder's table; LF not printable in the IsPrint "
                   "table (C03_isprint_lf, regenerated each run); and, at protocol 0 only, FloatTextOK for each float in the value: "
                   "ParseFloat returns the same float for its %g text (newline-freeness of that text is proved, fmtG_no_lf) - strconv's "
-                  "shortest-round-trip property, NOT proved (C03_roundtrip_bin: no such hypothesis from protocol 1 on). PARTIAL: that float-text hypothesis, *big.Int keys "
-                  "of builtin maps, and the normal forms of non-canonical inputs are tied by correspondence: decode(encode(v)) is computed "
+                  "shortest-round-trip property, NOT proved (C03_roundtrip_bin: no such hypothesis from protocol 1 on). Non-canonical "
+                  "values are covered by C03_normal_form (rtn_val, the same induction): unsigned integers and pointers to application structs, "
+                  "at any depth and as map / Dict keys, come back as their documented normal form `norm v` (uint64 -> int64 of the same value, or "
+                  "*big.Int above 2^63-1; struct -> map / Dict of its fields; `norm` is the identity on canonical values). PARTIAL: that "
+                  "float-text hypothesis, *big.Int keys of builtin maps, and the normal forms of the remaining non-canonical inputs (narrow "
+                  "int / float32 widths, typed slices and maps - values the reflect layer widens before the model sees them) are tied by correspondence: decode(encode(v)) is computed "
                   "by the implementation and by the model for every generated value x protocol x mode and compared with each other and "
                   "with the documented normal form; the argument is re-rendered after Encode to detect mutation.")
     level_note = ("trusted: Lean kernel + standard axioms; encoder and decoder models (exact agreement required on every explored case); float "
